@@ -325,6 +325,104 @@ def align_many(pa, jobs, timeout=60):
     return results
 
 
+def edited_case(rng, case):
+    """an in-place edit of the continuum of `case` that keeps every annotator's number of units (one unit moved elsewhere), or declares one more
+    annotator without units; returns the case after the edit (None when the continuum has no unit to move)"""
+    units = [list(us) for us in case["units"]]
+    after = dict(case)
+    if rng.random() < 0.25 and len(units) < len(gen.ANNOTATORS):
+        after["units"] = units + [[]]
+        after["units_before"] = case["units"]
+        after["edit"] = ("add_annotator",)
+        return after
+    cands = [a for a, us in enumerate(units) if us]
+    if not cands:
+        return None
+    a = rng.choice(cands)
+    k = rng.randrange(len(units[a]))
+    s0, e0, l0 = units[a][k]
+    shift = rng.choice([-9.0, -2.5, 3.0, 11.0, 40.0])
+    new = (s0 + shift, e0 + shift + rng.choice([0.0, 0.5, 2.0]), l0)
+    if new in units[a]:
+        return None
+    units[a] = sorted(units[a][:k] + units[a][k + 1:] + [new], key=lambda t: (t[0], t[1], t[2] is not None, t[2] or ""))
+    after["units"] = units
+    after["units_before"] = case["units"]
+    after["edit"] = ("move", a, (s0, e0, l0), new)
+    return after
+
+
+def realign_many(pa, jobs, timeout=90):
+    """jobs: list of (case, case_after, mode, first_soft, second_soft).  In a forked worker: build the continuum of `case`, align it (first), apply
+    the edit IN PLACE through the public API, align the same object again with the same dissimilarity object (second); the second alignment is
+    returned and judged against the continuum as it is after the edit."""
+    from pyannote.core import Segment
+
+    def work(k):
+        case, after, mode, s1, s2 = jobs[k]
+        cont = gen.build_continuum(pa, case["units"])
+        dissim = gen.make_dissim(pa, case["spec"])
+        set_backend(mode)
+        try:
+            (cont.get_best_soft_alignment if s1 else cont.get_best_alignment)(dissim)
+            ed = after["edit"]
+            if ed[0] == "add_annotator":
+                cont.add_annotator(gen.ANNOTATORS[len(case["units"])])
+            else:
+                _, a, old, new = ed
+                name = gen.ANNOTATORS[a]
+                cont.remove(name, pa.continuum.Unit(Segment(old[0], old[1]), old[2]))
+                cont.add(name, Segment(new[0], new[1]), new[2])
+            r = (cont.get_best_soft_alignment if s2 else cont.get_best_alignment)(dissim)
+            r.continuum = None
+            return r, [str(x) for x in solvers_used()]
+        finally:
+            set_backend("cbc")
+    outs = map_forked(work, range(len(jobs)), timeout)
+    results = []
+    for (case, after, mode, s1, s2), o in zip(jobs, outs):
+        cont = gen.build_continuum(pa, after["units"])
+        dissim = gen.make_dissim(pa, after["spec"])
+        res = {"cont": cont, "dissim": dissim, "error": None, "mode": mode, "solvers": []}
+        if o[0] == "timeout":
+            res["error"] = "timeout after %ds" % timeout
+        elif o[0] == "err":
+            res["error"] = "%s: %s" % (o[1], o[2])
+        else:
+            al, res["solvers"] = o[1]
+            al.continuum = cont
+            I = Inst(cont, dissim)
+            res["I"] = I
+            res["alignment"] = al
+            try:
+                res["tuples"] = [I.index_tuple(ua.n_tuple) for ua in al.unitary_alignments]
+            except Exception as e:      # a unit of the alignment that the edited continuum does not hold
+                res["tuples"] = None
+                res["error"] = "alignment does not fit the edited continuum: %s: %s" % (type(e).__name__, e)
+            res["slots_ok"] = all(len(ua.n_tuple) == I.n for ua in al.unitary_alignments)
+            res["disorder"] = al.disorder
+            res["ua_disorders"] = [ua.disorder for ua in al.unitary_alignments]
+        results.append(res)
+    return results
+
+
+def replay_align(pa, data, soft):
+    """the library result for a recorded case: through the recorded history when the record carries one (aligned, edited in place, aligned again)"""
+    mode = data.get("mode") or "cbc"
+    tup = lambda us: [[(u[0], u[1], u[2]) for u in x] for x in us]
+    case = {"units": tup(data["units"]), "spec": tuple(data["dissim"]), "pattern": "replay", "unlabelled": False}
+    if data.get("edit") is not None and data.get("units_before") is not None:
+        ed = data["edit"]
+        case["edit"] = tuple(ed[:2]) + tuple(tuple(x) for x in ed[2:]) if ed[0] == "move" else tuple(ed)
+        case["units_before"] = tup(data["units_before"])
+        before = dict(case, units=case["units_before"])
+        res = realign_many(pa, [(before, case, mode, bool(data.get("first_soft")), soft)])[0]
+    else:
+        res = align_case(pa, case, mode, soft=soft)
+    res["mode"] = mode
+    return case, res
+
+
 def sizes_line(fn, I, tuples):
     return [fn] + w_list(I.sizes) + w_list(tuples, w_tuple)
 
@@ -359,6 +457,8 @@ def judge_many(rep, items, part, want_optimal, limit=20, prefix=""):
 
     def rdata(case, res, **kw):
         d = {"units": case["units"], "dissim": case["spec"], "mode": res.get("mode"), "soft": not part}
+        if case.get("edit") is not None:       # the continuum was aligned once before being edited in place (units = the continuum after the edit)
+            d.update(edit=case["edit"], units_before=case.get("units_before"), first_soft=case.get("first_soft"))
         d.update(kw)
         return d
     stage = []
